@@ -27,7 +27,7 @@ CASES = {"quick": 2500, "thorough": 150000}
 MIN_CASES = {"quick": 100, "thorough": 2500}
 REQUIRED_CLASSES = ["int_origin", "nonuniform", "fractional_size", "shifted_origin", "scaled", "decimal"]
 REQUIRED_COUNTERS = ["model_sets_compared", "models_enumerated", "reference_shapes_enumerated", "solve_return_checked", "bound:none", "bound:optimum", "bound:optimum+1",
-                     "via:direct", "via:allocation", "k:1", "k:2", "k:3"]
+                     "via:direct", "via:allocation", "via:select_box", "k:1", "k:2", "k:3"]
 SOFT_DEADLINE = {"quick": 240, "thorough": 3300}
 
 _rect = _sat = _Solver = _rio = None
@@ -94,8 +94,13 @@ def generate(rng, tier, i):
         occ[rng.randrange(len(occ))] = 1.0
     k = rng.choice([1, 2, 2, 3, 3])
     bound = rng.choice(["none", "none", "random", "optimum", "optimum+1"])
+    via = rng.choice(["direct", "allocation", "select_box"])
+    if via == "select_box" and rng.random() < 0.6:
+        # negative / mixed-sign origins, fractional cells
+        sx, sy = rng.choice([F(-21, 10), F(-7), F(-3, 2), F(-1, 10), F(-5)]), rng.choice([F(-7), F(-21, 10), F(0), F(-3, 10)])
+        xs, ys = [x + sx for x in xs], [y + sy for y in ys]
     return {"cls": cls, "xs": [geo.fl(x) for x in xs], "ys": [geo.fl(y) for y in ys], "occ": occ, "k": k, "bound": bound,
-            "via": rng.choice(["direct", "allocation"]), "bseed": rng.randrange(1 << 30)}
+            "via": via, "bseed": rng.randrange(1 << 30)}
 
 
 def directed():
@@ -182,6 +187,11 @@ def prepare(case):
         from frame.geometry.geometry import Rectangle
         Rectangle.undefine_epsilon()
         ifile = _rio.get_alloc(tree)
+        carrier.input_problem, carrier.selbox = _rio.select_box("M", ifile)
+    elif case["via"] == "select_box":
+        # the parsed-allocation structure handed to select_box directly: reaches origins an Allocation cannot have (negative coordinates)
+        rects = [{f"b{n}": [{"dim": [(x1 + x2) / 2, (y1 + y2) / 2, x2 - x1, y2 - y1]}, {"mod": [{"M": p}]}]} for n, (x1, y1, x2, y2, p) in enumerate(cells)]
+        ifile = {"Width": case["xs"][-1] - case["xs"][0], "Height": case["ys"][-1] - case["ys"][0], "Rectangles": rects}
         carrier.input_problem, carrier.selbox = _rio.select_box("M", ifile)
     else:
         ifile = {"Width": case["xs"][-1] - case["xs"][0], "Height": case["ys"][-1] - case["ys"][0]}
